@@ -11,7 +11,7 @@ THEOREMS = ["Ymq.C11." + t for t in (
     "verify_sound combine_valid combine_undivisible unpack_pack normFactors_prod unpack_pack_verify "
     "pack_one_becomes_two add_inv history_inv cycles_valid try_factor_proper even_combination_square "
     "kernel_step_proper verify_false_negative doubles_disjoint_add doubles_disjoint pack_total add_no_panic "
-    "add_inv2 history_no_panic walk_root_max final_step_proper").split()]
+    "add_inv2 history_no_panic walk_root_max final_step_proper cycles_tail_even try_factor_unreduced_panics").split()]
 PROFILES = ["release", "chk"]
 TIMEOUT = 60.0
 RULE = ("synthetic histories for the real RelationSet: n = p1*p2 (16..31-bit primes known to the generator, square roots "
@@ -128,6 +128,16 @@ def fvalue(fs, n):
     for p, k in fs:
         v = v * pow(p, k, n) % n
     return v
+
+
+def tail_even(fs):
+    """all entries of a prime except the first have even exponents (Lean: TailEven)"""
+    seen = set()
+    for p, k in fs:
+        if p in seen and k % 2:
+            return False
+        seen.add(p)
+    return True
 
 
 def rel_valid(n, rel):
@@ -413,6 +423,8 @@ def corpus_case(line):
         return Case(line[5:], o=False, profiles=["chk"], tag="corpus/contract")
     if line.startswith("@k "):          # model/code comparison only (documented edge of the domain)
         return Case(line[3:], o=False, tag="corpus/edge")
+    if line.startswith("sieve_"):       # real runs: the model answers through the follow-up request
+        return Case(line, k=False, tag="corpus/real", timeout=300.0)
     return Case(line, tag="corpus")
 
 
@@ -513,6 +525,8 @@ def contract_violation(n, maxlarge, it):
     for p, k in fs:
         if p != -1 and not (0 < p < (1 << 32) and k > 0 and (p == 2 or p % 2 == 1)):
             return f"factor entry {p}^{k} outside the encoder's domain"
+    if not tail_even(fs):
+        return "a prime is listed twice with an odd later exponent"
     if c == 1:
         return None
     if c < maxlarge:
@@ -545,6 +559,8 @@ def oracle(case, ans):
                 rel = parse_rel(r)
                 if rel[1] != 1 or not rel_valid(n, rel):
                     return f"final_step received a relation that is not a complete congruence: {r[:200]}"
+                if not tail_even(rel[3]):
+                    return f"final_step received a relation whose OR-parity differs from its exponent parity: {r[:200]}"
         if parts[2] != "-":
             for d in map(int, parts[2].split(",")):
                 if not (1 < d < n and n % d == 0):
@@ -582,6 +598,8 @@ def oracle(case, ans):
                     return f"published cycle with cofactor {rel[1]}"
                 if not rel_valid(n, rel):
                     return f"published cycle is not a congruence: {rtoken(*rel)}"
+                if not tail_even(rel[3]):
+                    return f"published cycle lists a prime twice with an odd later exponent: {rtoken(*rel)}"
         if total != int(fin["cycles"]):
             return "cycle count mismatch"
         pkeys = set()
